@@ -327,6 +327,7 @@ def check_sc(case, toks, allocfail=False):
     kq = {k: KQ(v) for k, v in info["feeds"].items()}
     req = {}        # id -> state
     slot = {}       # (fd, wr) -> id of the user request holding the registration
+    maybe_free = set()   # slots whose holder may have lost its registration (a refused re-registration inside the loop)
     expect = None   # ("cb", id, value) | ("fail",) | ("nrcb", status): what the next token must be
     wire = {}       # fd -> bytearray of the bytes the checker believes were handed to send
     nsock = 0
@@ -389,8 +390,9 @@ def check_sc(case, toks, allocfail=False):
                 continue
             key = (o.fd, kind == "w")
             if ok:
-                if key in slot:
+                if key in slot and key not in maybe_free:
                     V("request %d registered although %d still holds (fd %d, %s)" % (rid, slot[key], o.fd, kind))
+                maybe_free.discard(key)
                 slot[key] = rid
                 req[rid] = {"o": o, "st": "pending", "pos": 0, "got": bytearray()}
             else:
@@ -693,6 +695,14 @@ def check_sc(case, toks, allocfail=False):
         if t.startswith("run="):
             if not allocfail:
                 V("%s: event loop reported an error" % t)
+            else:
+                # an allocation was refused inside the loop: a request that was told "try again" by the
+                # kernel could not register itself again (network_accept.c / network_read.c / network_write.c
+                # return the registration's failure).  Such a request is still the caller's to cancel but
+                # holds no registration any more - C14: "a failed ... registration leaves nothing
+                # registered ... and the same registration can be made again" - so a new request for the
+                # same descriptor and direction may now succeed.
+                maybe_free.update(slot.keys())
             continue
         if t == "skip":
             continue
